@@ -65,8 +65,8 @@ def _hasinf(obs):
 
 
 def coq_case(case, obs):
-    if 'exc' in obs or ('err' not in obs and _hasinf(obs)):
-        return None                               # an infinity is not a value of the rational model: left to the oracle
+    if 'exc' in obs or ('err' not in obs and _hasinf(obs)) or case.get('exact'):
+        return None                               # an infinity, or a value decided by floating-point cancellation, is not a value of the rational model: left to the oracle
     n = len(case['X'])
     ex4 = case.get('extra')
     t = '{| xs := %s; ys := %s; zs := %s; ts := %s; dico := [(s_ "a", 0%%nat); (s_ "b", 1%%nat); (s_ "s", 2%%nat)%s]; feats := %s |}' % (
@@ -309,6 +309,16 @@ def gen_trees(rng, n, tier):
         c = rand_track(rng)
         c['np'] = rng.random() < 0.25             # feature values held as numpy.float64 (oracle stream only: numpy turns some Python errors into inf, which the model's error classes do not describe)
         e = gen_tree(rng, rng.randint(1, 4))
+        if rng.random() < 0.12:
+            # left-to-right grouping is visible only where floating-point addition is not associative: chains of + - (*) without parentheses
+            # over values of very different magnitudes; compared exactly with the same operations applied left to right
+            SENS = [2.0 ** 53, 1.0, -1.0, 0.1, 0.2, 0.3, 1e16, 3.0, 1e-16, 2.0 ** -30]
+            for k in 'abs':
+                c[k] = [rng.choice(SENS) for _ in c['X']]
+            c['np'] = False; c['exact'] = True
+            e = ['name', rng.choice(['a', 'b', 's'])]
+            for _ in range(rng.randint(2, 4)):
+                e = ['bin', rng.choice(['+', '-', '+', '-', '*']), e, rng.choice([['name', rng.choice(['a', 'b', 's'])], ['lit', rng.choice(['1', '0.1', '3'])]])]
         try:
             exp = ev(e, env_of(c), len(c['X']))
         except Undefined:
@@ -344,6 +354,8 @@ def oracle_trees(case, obs):
     if any(k != len(names) for k in obs['nfeat']) or any(nm.startswith('#') for nm in names) or not obs['t_ok']:
         return 'operate(%r): table misaligned, temporaries left or timestamps changed (names %r, per-observation counts %r)' % (case['prog'], names, obs['nfeat'])
     if lhs is None:
+        if case.get('exact') and obs['ret'] is not None and [None if v != v else v for v in exp] != obs['ret']:
+            return 'operate(%r) returned %r; the operators applied left to right, with the usual precedence, give exactly %r' % (case['prog'], obs['ret'], exp)
         if obs['ret'] is None or not close_lists(obs['ret'], exp):
             return 'operate(%r) returned %r, ordinary arithmetic on the expression tree gives %r' % (case['prog'], obs['ret'], exp)
         base = ['a', 'b', 's'] + ([case['extra'][0]] if case.get('extra') else [])
@@ -355,6 +367,8 @@ def oracle_trees(case, obs):
     got = {'x': obs['x'], 'y': obs['y'], 'z': obs['z']}.get(lhs)
     if got is None:
         got = cols.get(lhs)
+    if case.get('exact') and got is not None and [None if v != v else v for v in exp] != got:
+        return 'after operate(%r) reading %r gives %r; the operators applied left to right, with the usual precedence, give exactly %r' % (case['prog'], lhs, got, exp)
     if got is None or not close_lists(got, exp):
         return 'after operate(%r) reading %r gives %r, the expression evaluates to %r' % (case['prog'], lhs, got, exp)
     expn = ['a', 'b', 's'] + ([case['extra'][0]] if case.get('extra') else []) + (['c'] if lhs == 'c' else [])
